@@ -15,9 +15,11 @@ def c14_sortkey_total_order(run, w, rule_id="C14-R5"):
   keys), with the sign applied consistently; ties fall through to the next column and finally to
   the row id. Any unconditional verdict inside the loop breaks the fall-through that makes later
   sort columns and the row id count."""
+  from . import _h_C as H
   R = run.rule(rule_id, "SortKey.__lt__: verdicts inside the column loop only under strict "
                "comparisons, ties fall through to later columns and finally to the row id", floor=3)
   fn = w.fn("sort_key.make_sort_key.SortKey.__lt__")
+  flow = H.Flow(fn)
   loops = [s for s in fn.node.body if isinstance(s, ast.For)]
   if len(loops) != 1:
     raise AnalysisError("SortKey.__lt__: expected one loop over the sort columns")
@@ -27,58 +29,48 @@ def c14_sortkey_total_order(run, w, rule_id="C14-R5"):
     raise AnalysisError("SortKey.__lt__: loop target is not (a, b, (col, sign))")
   a, b = text(tg.elts[0]), text(tg.elts[1])
   sign = text(tg.elts[2].elts[1])
-  rets = []
-  def scan(stmts, conds):
-    for s in stmts:
-      if isinstance(s, ast.Return):
-        rets.append((s, list(conds)))
-      elif isinstance(s, ast.If):
-        scan(s.body, conds + [s.test])
-        scan(s.orelse, conds + [ast.UnaryOp(op=ast.Not(), operand=s.test)])
-      elif isinstance(s, ast.Try):
-        scan(s.body, conds)
-        for h in s.handlers:
-          scan(h.body, conds)
-        scan(s.orelse, conds)
-        scan(s.finalbody, conds)
-      elif isinstance(s, (ast.For, ast.While, ast.With)):
-        scan(s.body, conds)
-  scan(lp.body, [])
-  if len(rets) < 2:
+  in_loop = {id(x) for x in ast.walk(lp)}
+  cases = H.return_cases(fn.node)
+  inner = [c for c in cases if id(c.stmt) in in_loop]
+  outer = [c for c in cases if id(c.stmt) not in in_loop]
+  if len(inner) < 2:
     raise AnalysisError("SortKey.__lt__: fewer than two verdicts inside the loop")
-  # fallback key variables: assigned in the loop from expressions over a resp. b
-  def base_of(name):
-    if name in (a, b):
-      return name
-    defs = [n.value for n in ast.walk(lp) if isinstance(n, ast.Assign) and
-            any(isinstance(t, ast.Name) and t.id == name for t in n.targets)]
-    if len(defs) == 1:
-      names = {x.id for x in ast.walk(defs[0]) if isinstance(x, ast.Name)}
-      if a in names and b not in names:
-        return a
-      if b in names and a not in names:
-        return b
+  def side(e):
+    """'a' / 'b' when the expression is built from one of the two compared values only."""
+    names = {x.id for x in ast.walk(flow.du.inline(e, stop=(a, b))) if isinstance(x, ast.Name)}
+    if a in names and b not in names:
+      return a
+    if b in names and a not in names:
+      return b
     return None
-  for (r, conds) in rets:
+  for case in inner:
     ok = False
     why = "verdict is not directly under a strict comparison of the two values"
-    if conds:
-      t = conds[-1]
-      if isinstance(t, ast.Compare) and len(t.ops) == 1 and isinstance(t.ops[0], ast.Lt) and \
-          isinstance(t.left, ast.Name) and isinstance(t.comparators[0], ast.Name):
-        l, rr = base_of(t.left.id), base_of(t.comparators[0].id)
+    strict = []
+    for (t, p) in case.atoms:
+      if not any(id(x) in in_loop for x in ast.walk(t) if isinstance(x, ast.expr)):
+        continue
+      if p is True and isinstance(t, ast.Compare) and len(t.ops) == 1 and \
+          isinstance(t.ops[0], (ast.Lt, ast.Gt)):
+        l, rr = side(t.left), side(t.comparators[0])
+        if isinstance(t.ops[0], ast.Gt):
+          l, rr = rr, l
         if {l, rr} == {a, b}:
-          want = 1 if l == a else -1
-          v = r.value
-          ok = isinstance(v, ast.Compare) and text(v.left) == sign and \
-              isinstance(v.ops[0], ast.Eq) and text(v.comparators[0]) == str(want)
-          why = None if ok else "sign applied inconsistently (expected %s == %d)" % (sign, want)
-    run.ob(R, fn.qualname, "return %s under %s" % (short(r.value, 40),
-                                                    short(conds[-1], 40) if conds else "<nothing>"),
+          strict.append((t, 1 if l == a else -1))
+    if len(strict) == 1:
+      want = strict[0][1]
+      v = flow.du.inline(case.value) if case.value is not None else None
+      ok = isinstance(v, ast.Compare) and len(v.ops) == 1 and isinstance(v.ops[0], ast.Eq) and \
+          {text(v.left), text(v.comparators[0])} == {sign, str(want)}
+      why = None if ok else "sign applied inconsistently (expected %s == %d)" % (sign, want)
+    run.ob(R, fn.qualname, "return %s under %s" % (short(case.value, 40),
+                                                    short(strict[0][0], 40) if strict
+                                                    else "<nothing>"),
            "a column decides the order only when its two values differ strictly", ok,
-           witness=why, fi=fn.fi, node=r)
-  last = fn.node.body[-1]
-  ok = isinstance(last, ast.Return) and text(last.value) == "self.row_id < other.row_id"
+           witness=why, fi=fn.fi, node=case.stmt)
+  ok = len(outer) == 1 and not outer[0].atoms and outer[0].value is not None and \
+      text(flow.du.inline(outer[0].value)) == "self.row_id < other.row_id" and \
+      fn.node.body[-1] is outer[0].stmt
   run.ob(R, fn.qualname, "return self.row_id < other.row_id", "rows equal in every sort column "
          "are ordered by ascending row id", ok, fi=fn.fi)
   it = lp.iter
@@ -91,33 +83,37 @@ def c14_sortkey_total_order(run, w, rule_id="C14-R5"):
 # ------------------------------------------------------------------------------------------ C13 / C05
 def c13_reset_all_keys(run, w, rule_id="C13-R2"):
   """_reset_sorted_versions drops the cached order of *every* key the record currently maps to."""
+  from . import _h_C as H
   run.rule(rule_id, "")
   fn = w.fn("lookup.LookupMapColumn._reset_sorted_versions")
+  flow = H.Flow(fn)
   ps = fn.fi.params()
-  defs = [n for n in ast.walk(fn.node) if isinstance(n, ast.Assign) and
-          isinstance(n.targets[0], ast.Name)]
-  keysets = [d for d in defs if "get_new_keys_iter" in text(d.value)]
-  ok = False
-  var = None
-  if len(keysets) == 1:
-    v = keysets[0].value
-    var = keysets[0].targets[0].id
+  def is_keyset(v):
     # set(<iter>) / list(<iter>) of the mapping's keys for this record, unfiltered
-    ok = isinstance(v, ast.Call) and dotted(v.func) in ("set", "list", "tuple") and \
+    return isinstance(v, ast.Call) and dotted(v.func) in ("set", "list", "tuple", "sorted") and \
         len(v.args) == 1 and isinstance(v.args[0], ast.Call) and \
-        endswith(dotted(v.args[0].func), "_mapping.get_new_keys_iter") and \
-        text(v.args[0].args[0]) == ps[1]
+        endswith(fn.name(v.args[0].func), "_mapping.get_new_keys_iter") and \
+        [text(x) for x in v.args[0].args] == [ps[1]]
+  uses = [c for c in calls_in(fn.node) if isinstance(c.func, ast.Attribute) and
+          c.func.attr == "get_new_keys_iter"]
+  loops = [s for s in fn.node.body if isinstance(s, ast.For) and
+           is_keyset(flow.du.inline(s.iter))]
   run.ob(rule_id, fn.qualname, "new_keys = set(self._mapping.get_new_keys_iter(rec))",
-         "all keys of the changed record are considered (no filter)", ok, fi=fn.fi)
-  loops = [s for s in fn.node.body if isinstance(s, ast.For) and text(s.iter) == var]
-  ok = len(loops) == 1 and not any(isinstance(x, (ast.If, ast.Continue, ast.Break))
+         "all keys of the changed record are considered (no filter)",
+         len(uses) == 1 and len(loops) == 1, fi=fn.fi)
+  def is_pop(c):
+    return isinstance(c.func, ast.Attribute) and c.func.attr == "pop" and \
+        isinstance(c.func.value, ast.Attribute) and c.func.value.attr == "sorted_versions"
+  ok = len(loops) == 1 and not any(isinstance(x, (ast.If, ast.Continue, ast.Break, ast.IfExp))
                                    for x in ast.walk(loops[0])) and \
-      any(endswith(fn.name(c) or "", "sorted_versions.pop") for c in calls_in(loops[0].body))
+      any(is_pop(c) for c in calls_in(loops[0].body))
   run.ob(rule_id, fn.qualname, "for key in new_keys: <set>.sorted_versions.pop(sort_spec, None)",
          "the cached order is dropped for each of them unconditionally", ok, fi=fn.fi)
-  rets = [n for n in ast.walk(fn.node) if isinstance(n, ast.Return)]
+  cases = [c for c in H.return_cases(fn.node)]
+  ok = len(cases) == 1 and len(loops) == 1 and cases[0].value is not None and \
+      text(flow.du.inline(cases[0].value)) == text(flow.du.inline(loops[0].iter))
   run.ob(rule_id, fn.qualname, "return new_keys", "the same keys are reported as affected",
-         len(rets) == 1 and text(rets[0].value) == var, fi=fn.fi)
+         ok, fi=fn.fi)
 
 
 # ------------------------------------------------------------------------------------------ C20
